@@ -154,6 +154,8 @@ class EvaluationMapper(RecursiveMapper, CSECachingMapperMixin):
 
     def map_polynomial(self, expr):
         # evaluate using Horner's scheme
+        from pymbolic.primitives import Expression
+
         result = 0
         rev_data = expr.data[::-1]
         ev_base = self.rec(expr.base)
@@ -163,6 +165,8 @@ class EvaluationMapper(RecursiveMapper, CSECachingMapperMixin):
                 next_exp = rev_data[i+1][0]
             else:
                 next_exp = 0
+            if isinstance(coeff, Expression):
+                coeff = self.rec(coeff)
             result = (result+coeff)*ev_base**(exp-next_exp)
 
         return result
